@@ -15,6 +15,9 @@ TRUSTED = [
     "nodes as root paths, dicts as item lists in insertion order, `tree & name` as first match in level order",
     "model Model/Newick.v: Gallina printer mirroring ete3 write(format=8, format_root_node=True, features=['color']) and a recursive-descent reader of that output language "
     "(compared string-for-string / tree-for-tree with ete3 on every case)",
+    "evaluator glue of Model/CliRun.v (eval_routput, eval_soutput, eval_result, to_rtree, to_ltree, own_num over Recon.cost / Recon.total_cost) and output_events "
+    "(Proofs/C11EvalProofs.v) as the model of ReconciliationOutput.cost / SuperReconciliationOutput.cost / node_event on binary object trees with integer unit costs "
+    "(transfer cost possibly infinite) - compared with the real classes on every case of the evaluator batch",
 ]
 ASSUMES = [
     "json.dumps/json.loads are the identity on to_dict() output (ints, float inf, strings, lists, booleans, ordered string-keyed dicts) - sampled on every case",
@@ -28,7 +31,8 @@ RULE = ("objects of the four classes built from JSON descriptions: random binary
         "species mappings from reconcile_lca, reconcile_thl(ALL), sreconcile_extended_spfs(ALL), usreconcile_extended_uspfs(ALL) and random LCA-lifted valid mappings; "
         "labellings from the solvers and random top-down sub-sequence labellings with list/tuple/str/set values (sets with natural-sort key ties); "
         "each goes through to_dict -> json.dumps -> json.loads -> from_dict -> to_dict. non-trivial = at least 3 object leaves and (a colour, an infinite cost, "
-        "a set-valued synteny or a non-leaf mapping item)")
+        "a set-valued synteny or a non-leaf mapping item); evaluator cases: the same output objects, a third of the transfer-using solver outputs again with an infinite "
+        "transfer cost, half of the random ones again with one internal node moved to a random species; non-trivial = parses back and at least two internal object nodes")
 OPEN_GOALS: list = []
 TECHNIQUE = ("Coq proof of the round-trip theorems of the dictionary layer (name lookup inverts .name under NoDup names; dict comprehension = item list under distinct keys; "
              "stable insertion sort is a permutation) and of parse_tree (print_tree t) = Some t for the concrete Gallina Newick printer/parser (nested induction on trees, "
@@ -38,14 +42,18 @@ LEVEL_TEXT = ("'Same events and cost after the round trip' is a theorem about th
               "the nested input is re-read as a plain ReconciliationInput, its leaf syntenies are dropped - stated, not hidden), reserialise_fixpoint on those fields, "
               "and newick_roundtrip for the concrete printer/parser on names/colours over [A-Za-z0-9_]. "
               "The model is compared with the implementation (through real json and real ete3) on every generated case: dictionaries item by item, Newick strings character by character, "
-              "re-read objects path by path, re-serialised dictionaries, plus equality of node events and cost() before/after.")
+              "re-read objects path by path, re-serialised dictionaries, plus equality of node events and cost() before/after; the evaluator model in which the events-and-cost theorem "
+              "is stated (eval_result under own_num, output_events) is compared exactly with cost() / node_event on the object as built and on the re-read object (batch evaluator).")
 LEVEL_NOTE = ("The theorems in Properties/C11.v are closed under the global context. In Proofs/SerialProofs.v ete3's writer/reader are Section variables with the hypothesis "
               "`read (write t) = Some t` on well-named trees; after the section is closed that hypothesis is an explicit premise of every SerialProofs theorem. "
               "Properties/C11.v instantiates write/read with the Gallina printer/parser and discharges the premise with the proved newick_roundtrip, so no hypothesis about ete3 remains "
               "in the statements; what remains *trusted, sampled only* is that ete3's write/read equal that printer/parser (string-for-string comparison on every case), "
               "that json is the identity on these dictionaries, the level-order `&` lookup, and the hand-written model itself. "
-              "'Hence the same events and cost' is a congruence corollary (any function of the preserved fields agrees) plus the sampled before/after comparison of node_event/cost(); "
-              "the evaluator model of C06 is not linked here. Unordered syntenies given as Python sets come back as sorted lists (same set), which the theorem states explicitly.")
+              "'Hence the same events and cost' is a theorem about the evaluator model (C11_same_events_and_cost_plain/_super): the C06 evaluator (Recon.cost / Recon.total_cost) reached "
+              "through the glue of Model/CliRun.v (eval_routput, eval_soutput, to_rtree, to_ltree) and the event list output_events of Proofs/C11EvalProofs.v. That this evaluator model "
+              "computes what cost() and node_event of the real classes compute is *sampled, not proved*: batch `evaluator` compares both exactly, before and after the round trip "
+              "(finite and infinite totals, transfers with their side, INVALID nodes, cost() raising); the RO/SO batches also compare node_event/cost() of the implementation alone "
+              "before/after. Unordered syntenies given as Python sets come back as sorted lists (same set), which the theorem states explicitly.")
 
 ALPHABET = "abcdefghijklmnopqrstuvwxyzABCDEFGHIJKLMNOPQRSTUVWXYZ0123456789_"
 EVS = ["LEAF", "INVALID", "SPECIATION", "DUPLICATION", "HORIZONTAL_TRANSFER", "FULL_LOSS", "SEGMENTAL_LOSS"]
@@ -311,6 +319,128 @@ def impl(c):
     res["events_before"] = events_cost(kind, x)
     res["events_after"] = events_cost(kind, x2)
     return res
+
+
+# ---------------------------------------------------------------------------
+# batch `evaluator`: the evaluator glue in which C11_same_events_and_cost_* are stated (Model/CliRun.v: eval_routput,
+# eval_soutput, to_rtree, to_ltree, own_num; Proofs/C11EvalProofs.v: output_events) against cost() / node_event of the
+# real classes, on the object as built and on the object read back from its JSON form
+
+EVAL_HEADER = HEADER + """From SR Require Model.Recon Model.CliRun Proofs.ReconProofs Proofs.C11EvalProofs.
+Definition rev_eqb (a b : Recon.ev) : bool :=
+  match a, b with
+  | Recon.Spe, Recon.Spe | Recon.Dup, Recon.Dup | Recon.TrL, Recon.TrL | Recon.TrR, Recon.TrR | Recon.Inv, Recon.Inv => true
+  | _, _ => false
+  end.
+Definition routput_of (r : routput + soutput) : routput := match r with inl x => x | inr x => s_out x end.
+(* cost(): None = it raises; the node events of the internal object nodes in pre-order: None = node_event raises *)
+Definition ev_cost (r : routput + soutput) : option ext * option (list Recon.ev) :=
+  (CliRun.eval_result (CliRun.own_num r) r, C11EvalProofs.output_events (routput_of r)).
+Definition back_of (r : routput + soutput) : option (routput + soutput) :=
+  match r with
+  | inl x => option_map inl (bind (routput_to_dict W x) (routput_from_dict R))
+  | inr x => option_map inr (bind (soutput_to_dict W x) (soutput_from_dict R))
+  end.
+(* before the round trip, after it (None: the serialised form does not parse back), "the numbers are integers or infinities" *)
+Definition eval_out := ((option ext * option (list Recon.ev)) * option (option ext * option (list Recon.ev)) * bool)%type.
+Definition run_eval (r : routput + soutput) : eval_out := (ev_cost r, option_map ev_cost (back_of r), true).
+Definition evc_eqb := pair_eqb (opt_eqb ext_eqb) (opt_eqb (list_eqb rev_eqb)).
+Definition eval_eqb (a b : eval_out) : bool :=
+  let '(x1, y1, f1) := a in let '(x2, y2, f2) := b in evc_eqb x1 x2 && opt_eqb evc_eqb y1 y2 && Bool.eqb f1 f2.
+"""
+
+EVAL_EV = {"SPECIATION": "Recon.Spe", "DUPLICATION": "Recon.Dup", "TRANSFER_KEEP_LEFT": "Recon.TrL",
+           "TRANSFER_KEEP_RIGHT": "Recon.TrR", "INVALID": "Recon.Inv"}
+
+
+def eval_observation(x):
+    """cost() and node_event of every internal object node in pre-order, of a (Super)ReconciliationOutput"""
+    out = {}
+    try:
+        v = x.cost()
+        if isinstance(v, int) and not isinstance(v, bool):
+            out["cost"] = v
+        elif not isinstance(v, bool) and (v == float("inf") or v == float("-inf")):      # a float, or the `infinity` package's object
+            out["cost"] = "inf" if v == float("inf") else "-inf"
+        else:
+            out["cost"] = "odd:" + repr(v)           # a float where every unit cost is an integer or inf, nan ...
+    except Exception as e:  # noqa: BLE001 - part of the observation
+        out["cost"] = "exc:" + type(e).__name__
+    try:
+        evs = []
+        rec, lca = x.object_species, x.input.species_lca
+        for node in x.input.object_tree.traverse("preorder"):
+            if node.is_leaf():
+                continue
+            e = x.node_event(node).name
+            if e == "HORIZONTAL_TRANSFER":
+                # the child that stays in the lineage, as _cost_rec decides it (dist_conserved)
+                e = "TRANSFER_KEEP_LEFT" if lca.is_ancestor_of(rec[node], rec[node.children[0]]) else "TRANSFER_KEEP_RIGHT"
+            evs.append(e)
+        out["events"] = evs
+    except Exception as e:  # noqa: BLE001
+        out["events"] = "exc:" + type(e).__name__
+    return out
+
+
+def impl_eval(c):
+    ete3, M, Y, LCA = _mods()
+    cls = {"RO": M.ReconciliationOutput, "SO": M.SuperReconciliationOutput}[c["kind"]]
+    x = make_object(c)
+    res = {"before": eval_observation(x), "after": None, "error": None}
+    try:
+        x2 = cls.from_dict(json.loads(json.dumps(x.to_dict())))
+    except Exception as e:  # noqa: BLE001
+        res["error"] = type(e).__name__
+        return res
+    res["after"] = eval_observation(x2)
+    return res
+
+
+def _enc_observation(o):
+    """(Gallina literal of option ext * option (list Recon.ev), expressible?)"""
+    ok = True
+    v = o["cost"]
+    if isinstance(v, int) and not isinstance(v, bool):
+        cost = f"(Some (Fin {cZ(v)}))"
+    elif v in ("inf", "-inf"):
+        cost = "(Some PInf)" if v == "inf" else "(Some NInf)"
+    elif isinstance(v, str) and v.startswith("exc:"):
+        cost = "None"
+    else:
+        cost, ok = "None", False
+    evs = o["events"]
+    if isinstance(evs, list) and all(e in EVAL_EV for e in evs):
+        events = "(Some " + clist(EVAL_EV[e] for e in evs) + ")"
+    elif isinstance(evs, str):
+        events = "None"
+    else:
+        events, ok = "None", False
+    return f"({cost}, {events})", ok
+
+
+def enc_eval_in(c):
+    return ("(inl " if c["kind"] == "RO" else "(inr ") + enc_in(c) + ")"
+
+
+def enc_eval_out(c, r):
+    b, ok1 = _enc_observation(r["before"])
+    if r["after"] is None:
+        return cpair(b, "None", cbool(ok1))
+    a, ok2 = _enc_observation(r["after"])
+    return cpair(b, f"(Some {a})", cbool(ok1 and ok2))
+
+
+def oracle_eval(c, r):
+    """property text: ... parsing it back yields ..., hence the same events and cost"""
+    ok, why = in_domain(c)
+    if not ok:
+        return True, "outside the property's domain: " + why
+    if r["after"] is None:
+        return False, f"the serialised form does not parse back ({r['error']})"
+    if r["after"] != r["before"]:
+        return False, f"node events / cost() differ after the round trip: before={r['before']} after={r['after']}"
+    return True, "same node events and the same cost before and after the round trip"
 
 
 # ---------------------------------------------------------------------------
@@ -815,8 +945,11 @@ def batches(ctx):
            "SI": ("sinput", "dinput", "sinput", "run_si", "res_eqb di_eqb si_eqb"),
            "RO": ("routput", "droutput", "routput", "run_ro", "res_eqb dro_eqb ro_eqb"),
            "SO": ("soutput", "dsoutput", "soutput", "run_so", "res_eqb dso_eqb so_eqb")}
+    kept = {"RO": [], "SO": []}
     for kind in ("RI", "SI", "RO", "SO"):
         cases = [] if replay is not None else gen_cases(ctx, kind, sizes[kind])
+        if kind in kept:
+            kept[kind] = cases
         tin, td, tx, run, eqb = tys[kind]
         srcs = {}
         for c in cases:
@@ -838,6 +971,58 @@ def batches(ctx):
             describe={"RI": "ReconciliationInput", "SI": "SuperReconciliationInput", "RO": "ReconciliationOutput", "SO": "SuperReconciliationOutput"}[kind]
                      + ": to_dict -> json -> from_dict -> to_dict; dictionaries, re-read object and re-serialisation compared with the model",
         )
+
+    # the evaluator glue of C11_same_events_and_cost_* against cost() / node_event, before and after the round trip
+    ecases = [json.loads(json.dumps(c)) for c in kept["RO"] + kept["SO"]]
+    # variants the generators above do not reach: an infinite transfer cost under a solution that uses transfers (infinite total),
+    # and one internal node moved to a random species (transfers in hand-made mappings, INVALID nodes, cost() that raises on
+    # the labelling of an INVALID node); the second kind is outside the property's domain (not a valid reconciliation) but
+    # inside the evaluator's, and the before/after comparison applies all the same
+    for c in list(ecases):
+        r = rng.random()
+        if c["src"] in ("thl", "spfs", "uspfs") and r < 0.35 and any(k == "HORIZONTAL_TRANSFER" and v != "inf" for k, v in c["costs"]):
+            v = json.loads(json.dumps(c))
+            v["costs"] = [[k, "inf" if k == "HORIZONTAL_TRANSFER" else x] for k, x in v["costs"]]
+            v["src"] = c["src"] + "+inf_transfer"
+            ecases.append(v)
+        elif c["src"] == "random" and r < 0.5:
+            inner = [i for i, (q, _) in enumerate(c["omap"]) if sub(c["O"], q)[2]]
+            if inner:
+                v = json.loads(json.dumps(c))
+                v["omap"][rng.choice(inner)][1] = rng.choice(list(all_paths(v["S"])))
+                v["src"] = "random+moved_node"
+                ecases.append(v)
+    eseen = {"cost": {"finite": 0, "infinite": 0, "raises": 0, "other": 0}, "events": {}, "not_parsed_back": 0}
+    ctx.dist["evaluator_observed"] = eseen
+
+    def observe_eval(c, r):        # parent process
+        v = r["before"]["cost"]
+        k = "finite" if isinstance(v, int) else "infinite" if v in ("inf", "-inf") else "raises" if str(v).startswith("exc:") else "other"
+        eseen["cost"][k] += 1
+        if isinstance(r["before"]["events"], list):
+            for e in r["before"]["events"]:
+                eseen["events"][e] = eseen["events"].get(e, 0) + 1
+        eseen["not_parsed_back"] += r["after"] is None
+
+    ctx.dist["evaluator"] = {
+        "cases": len(ecases), "plain_outputs": sum(1 for c in ecases if c["kind"] == "RO"), "super_outputs": sum(1 for c in ecases if c["kind"] == "SO"),
+        "ordered": sum(1 for c in ecases if c.get("ordered") is True), "unordered": sum(1 for c in ecases if c.get("ordered") is False),
+        "with_set_synteny": sum(1 for c in ecases if any(s[0] == "set" for _, s in (c.get("syns") or []))),
+        "with_infinite_cost": sum(1 for c in ecases if any(v in ("inf", "-inf") for _, v in c["costs"])),
+        "by_source": _hist(c["src"] for c in ecases),
+    }
+    yield Batch(
+        name="evaluator", header=EVAL_HEADER, run="run_eval", eqb="eval_eqb",
+        ty_in="(routput + soutput)%type", ty_out="eval_out",
+        cases=ecases, impl=impl_eval, observe=observe_eval, enc_in=enc_eval_in, enc_out=enc_eval_out,
+        oracle=oracle_eval,
+        nontrivial=lambda c, r: r["after"] is not None and isinstance(r["before"]["events"], list) and len(r["before"]["events"]) >= 2,
+        exhaustive=False, shard=40 if quick else 120,
+        describe="the RO and SO cases again, plus variants with an infinite transfer cost or one internal node moved to a random species: Model/CliRun.v's `eval_result (own_num r) r` (= eval_routput / eval_soutput under the object's own family numbering) and "
+                 "Proofs/C11EvalProofs.v's `output_events` on the object r as built and on the object the model reads back from r's dictionary, against the package's "
+                 "`cost()` (exact: integer or infinity; an exception = None) and `node_event` of every internal object node in pre-order (a transfer with the side "
+                 "`_cost_rec` keeps) on the object as built and on `from_dict(json.loads(json.dumps(x.to_dict())))`; the oracle asks for equal observations before and after",
+    )
 
     # malformed stream: duplicate node names (outside the property's domain; the model mirrors dict overwriting and
     # the level-order lookup, so agreement is expected and nothing is alarmed; outcomes are recorded)
